@@ -24,7 +24,7 @@ ViewOf(st) == [ost |-> st.ost,
                pools |-> [k \in 1..Cfg.np |-> [acpu |-> st.pools[k].acpu, aram |-> st.pools[k].aram,
                             active |-> [j \in 1..Len(st.pools[k].active) |->
                                           LET c == st.ctr[st.pools[k].active[j]] IN
-                                          [cid |-> st.pools[k].active[j], prio |-> wl[c.ops[1][1]].prio, can |-> c.can]]]]]
+                                          [cid |-> st.pools[k].active[j], prio |-> wl[c.ops[1][1]].prio, can |-> c.can, ops |-> c.ops]]]]]
 ResultsOf(st) == [j \in 1..Len(st.results) |->
                     LET c == st.ctr[st.results[j].cid] IN
                     [cid |-> st.results[j].cid, err |-> st.results[j].err, pool |-> st.results[j].pool, ops |-> c.ops, cpu |-> c.cpu, ram |-> c.ram]]
